@@ -440,6 +440,71 @@ func runScalars(raw json.RawMessage, seed int64, rec *Rec) {
 		}
 		stop()
 		rec.Add(E("result", "ok", err == nil, "code", codeOf(err), "got", got, "hctx", hctx.Load(), "stuck", stuck))
+	case "late_response":
+		// the call's context is cancelled while HTTPClient.Do is still in flight; the response head and the cancellation
+		// race and the response wins: Do returns a response after the cancellation.  Whoever finishes the call, that
+		// response body must be closed (C14), and what fails fails as canceled (C15).
+		entered := make(chan struct{})
+		gate := make(chan struct{})
+		var closed atomic.Bool
+		var once sync.Once
+		lt := httpClientFunc(func(req *http.Request) (*http.Response, error) {
+			go func() { _, _ = io.Copy(io.Discard, req.Body) }()
+			once.Do(func() { close(entered) })
+			<-gate
+			hdr := http.Header{}
+			hdr.Set("Content-Type", contentType(s.Proto, s.Used == "unary", "proto"))
+			return &http.Response{Status: statusLine(200), StatusCode: 200, Proto: "HTTP/2.0", ProtoMajor: 2, Header: hdr, Trailer: http.Header{},
+				Body: &lateBody{ctx: req.Context(), closed: &closed}, Request: req}, nil
+		})
+		client := connect.NewClient[BV, BV](lt, "http://verif.test/verif.v1.Svc/M", clientProtoOpts(s.Proto)...)
+		ctx, cancel := context.WithCancel(context.Background())
+		done := make(chan struct{})
+		var err error
+		go func() {
+			defer close(done)
+			switch s.Used {
+			case "unary":
+				_, err = client.CallUnary(ctx, connect.NewRequest(&BV{}))
+			case "client":
+				cs := client.CallClientStream(ctx)
+				_ = cs.Send(&BV{})
+				_, err = cs.CloseAndReceive()
+			case "server":
+				var st *connect.ServerStreamForClient[BV]
+				st, err = client.CallServerStream(ctx, connect.NewRequest(&BV{}))
+				if err == nil {
+					for st.Receive() {
+					}
+					err = st.Err()
+					_ = st.Close()
+				}
+			default:
+				bs := client.CallBidiStream(ctx)
+				_ = bs.Send(&BV{})
+				_ = bs.CloseRequest()
+				_, err = bs.Receive()
+				_ = bs.CloseResponse()
+			}
+		}()
+		stuck := false
+		select {
+		case <-entered:
+		case <-time.After(10 * time.Second):
+			stuck = true
+		}
+		cancel()
+		time.Sleep(time.Duration(s.D) * time.Millisecond) // (the API calls may or may not have returned by now)
+		close(gate)
+		select {
+		case <-done:
+		case <-time.After(10 * time.Second):
+			stuck = true
+		}
+		for i := 0; i < 3000 && !closed.Load(); i++ {
+			time.Sleep(time.Millisecond)
+		}
+		rec.Add(E("result", "ok", err == nil, "code", codeOf(err), "closed", closed.Load(), "stuck", stuck))
 	case "errmeta_limit":
 		// a handler fails with metadata and a long message; the client's read limit is smaller than the error payload:
 		// whatever code the client reports, the handler's metadata is in the error (C11 "on failure at least in the
@@ -597,3 +662,22 @@ func unitOf(text string) time.Duration {
 	}
 	return time.Hour
 }
+
+type httpClientFunc func(*http.Request) (*http.Response, error)
+
+func (f httpClientFunc) Do(r *http.Request) (*http.Response, error) { return f(r) }
+
+// lateBody is the body of a response that arrived after its request's context ended: reads fail with the context's
+// error, like net/http's.
+type lateBody struct {
+	ctx    context.Context
+	closed *atomic.Bool
+}
+
+func (b *lateBody) Read([]byte) (int, error) {
+	if err := b.ctx.Err(); err != nil {
+		return 0, err
+	}
+	return 0, io.EOF
+}
+func (b *lateBody) Close() error { b.closed.Store(true); return nil }
